@@ -51,5 +51,52 @@ def shapes(tier, ref=False):
     return o
 
 
+HT = 'harness/e2/c01_tab.c'
+REFS = ['ref_parquet_read.c', 'ref_parquet_meta.c', 'ref_thrift.c', 'ref_rle.c', 'ref_snappy.c', 'ref_lz4.c', 'ref_hash.c', 'ref_plain_bss.c']
+SYMTXT = {0: 'CONCRETE content rich in special values (INT_MIN/MAX, NaN, -0.0, infinities, denormals, empty strings, embedded NULs)', 1: 'null pattern SYMBOLIC (values concrete)',
+          2: 'every value bit SYMBOLIC (null pattern concrete)', 3: 'every value bit and the null pattern SYMBOLIC', 4: 'all-null column (concrete)', 8: 'no-null column (concrete values)',
+          5: 'null pattern SYMBOLIC', 6: 'every value bit SYMBOLIC, all rows null'}
+READS = {1: 'buffer', 2: 'stdio', 4: 'mmap'}
+VIAS = {1: 'column reader (one read per chunk)', 2: 'column reader in reads of k rows', 4: 'batch reader with batch_size k'}
+
+
+def tab(name, cols, r, rg=None, order=0, ps=(1,), codec=('unc',), read=1, via=1, k=3, stats=1, rgsize=None, trail0=False, wfile=False, nsymlen=1, twice=False, ref=False, statcheck=False,
+        timeout=1500, fork_max=16, max_paths=100000):
+    """cols: list of (type 0..6, optional 0/1, symbolic bits, batch pattern list[, FLBA length])"""
+    d = ['-DVT_NC=%d' % len(cols), '-DVT_R=%d' % r, '-DVT_ORDER=%d' % order, '-DVT_PS=' + ','.join(map(str, ps)), '-DVT_CODEC=' + ','.join(CODECS[c] for c in codec),
+         '-DVT_READ=%d' % read, '-DVT_VIA=%d' % via, '-DVT_K=%d' % k, '-DVT_STATS=%d' % stats, '-DVT_NSYMLEN=%d' % nsymlen]
+    if rg: d.append('-DVT_RG=' + ','.join(map(str, rg)))
+    if rgsize is not None: d.append('-DVT_RGSIZE=%d' % rgsize)
+    if trail0: d.append('-DVT_TRAIL0=1')
+    if twice: d.append('-DVT_TWICE')
+    if wfile: d.append('-DVT_WFILE')
+    ctxt = []
+    anysym = False
+    for i, c in enumerate(cols):
+        ct, opt, sym, pat = c[:4]
+        fl = c[4] if len(c) > 4 else 3
+        d += ['-DVT_T%d=%d' % (i, ct), '-DVT_O%d=%d' % (i, opt), '-DVT_S%d=%d' % (i, sym), '-DVT_B%d=%s' % (i, ','.join(map(str, pat))), '-DVT_L%d=%d' % (i, fl)]
+        anysym |= bool(sym & 3)
+        ctxt.append('%s%s %s [%s; write_batch sizes %s]' % (TN[ct].replace('FLBA3', 'FLBA'), ('(%d)' % fl) if ct == 6 else '', 'OPTIONAL' if opt else 'REQUIRED',
+                                                        SYMTXT.get(sym if opt or not (sym & 1) else sym & ~1, SYMTXT[sym & 3]) + ((', byte-array lengths 0..3 symbolic for the first %d value(s)' % nsymlen) if ct == 5 and sym & 2 else ''),
+                                                        '/'.join(map(str, pat)) + (' cycled' if sum(pat) < r else '')))
+    kw = {'summaries': ['crc32'] if anysym else []}
+    if ref:
+        d += ['-DREFCHECK', '-DREF_MAX_VALUES=32', '-DREF_MAX_PAGES=12']
+        if statcheck: d.append('-DVT_STATCHECK')
+        kw['ref'] = REFS
+    stubs = STUBS if anysym else [x for x in STUBS if 'crc32' not in x]
+    b = ('%d column(s): %s; %d rows; row groups (explicit new_row_group) %s; call order %s%s; page_size %s; codec %s; write_statistics %s%s; read back via %s through %s%s'
+         % (len(cols), '; '.join(ctxt), r, '+'.join(map(str, rg)) if rg else '1', {0: 'column by column', 1: 'columns in reverse order', 2: 'round robin'}[order],
+            ', one extra empty write_batch per column and row group' if trail0 else '', ' | '.join(map(str, ps)) + (' (one per path)' if len(ps) > 1 else ''),
+            ' | '.join(codec) + (' (one per path)' if len(codec) > 1 else ''), 'on' if stats else 'off', (', row_group_size %d' % rgsize) if rgsize is not None else '',
+            ' + '.join(v for kk, v in VIAS.items() if via & kk).replace('k rows', '%d rows' % k).replace('batch_size k', 'batch_size %d' % k), ' + '.join(v for kk, v in READS.items() if read & kk),
+            ('; writer created on a caller-owned FILE* (carquet_writer_create_file)' if wfile else '') + ('; written twice, files compared byte for byte' if twice else '')
+            + ('; file also checked by the independent reference reader (structure, tiling, sizes, counts, CRC, codec tags, encodings lists, every column\'s content%s)' % (', page statistics are true bounds' if statcheck else '') if ref else '')
+            + ('' if anysym else '; real CRC-32 computed (no CRC summary)')
+            + '; outside: more than 3 columns / more rows, nested or repeated columns, GZIP/ZSTD (library models), dictionary encoding (the writer emits PLAIN only), INT96 (the writer refuses it)'))
+    return E2(('tab+ref/' if ref else 'tab/') + name, HT, defines=d, all_lib=True, timeout=timeout, stubs=stubs, fork_max=fork_max, max_paths=max_paths, bounds=b, **kw)
+
+
 def obligations(tier):
     return shapes(tier)
